@@ -221,6 +221,7 @@ class ClientIO:
     out: bytearray                     # everything the server wrote so far
     taken: int = 0
     closed_at: Optional[int] = None    # virtual ms when the server closed the transport
+    close_begin_at: Optional[int] = None   # … when the server began to close it (first write_eof / send_eof / close / aclose call)
     eof_at: Optional[int] = None       # … when the server half-closed (write_eof)
 
     def take(self) -> bytes:
@@ -306,6 +307,10 @@ class _AWriter:
         return None
 
     def write_eof(self) -> None:
+        # (asyncio raises nothing when a drain() is pending: the flag is set and the FIN follows the buffered data)
+        if self.io.close_begin_at is None:
+            self.io.close_begin_at = self.io.rec.t()
+            self.io.rec.label("srvCloseBegin")
         self.eof_written = True
         if self.io.eof_at is None:
             self.io.eof_at = self.io.rec.t()
@@ -324,13 +329,21 @@ class _AWriter:
         self.io.rec.label("srvWrite", len(data))
 
     async def drain(self) -> None:
-        while self.io._paused and not self.io._fail:
-            self.io._resume = asyncio.Event()
-            await self.io._resume.wait()
+        # a transport that is closing keeps what it has buffered until the peer has read it: `close()` does not release a
+        # task waiting here (only the peer reading again or the loss of the connection does)
+        if self.io._paused and not self.io._fail:
+            self.io.rec.label("srvWriteBlocked")
+            while self.io._paused and not self.io._fail:
+                self.io._resume = asyncio.Event()
+                await self.io._resume.wait()
+            self.io.rec.label("srvWriteUnblocked")
         if self.io._fail:
             raise ConnectionResetError()
 
     def close(self) -> None:
+        if self.io.close_begin_at is None:
+            self.io.close_begin_at = self.io.rec.t()
+            self.io.rec.label("srvCloseBegin")
         if not self.is_closed:
             self.is_closed = True
             self.io.closed_at = self.io.rec.t()
@@ -484,7 +497,8 @@ _EARLY: List[Optional[Callable[[dict], None]]] = [None]
 
 def _finish(res: dict, rec: Rec, loop_errors: List[str], turns: int) -> dict:
     io = res.pop("io")
-    return {"out": bytes(io.out), "writes": io.writes, "closed_at": io.closed_at, "eof_at": io.eof_at, "labels": rec.labels, "apps": rec.apps,
+    return {"out": bytes(io.out), "writes": io.writes, "closed_at": io.closed_at, "eof_at": io.eof_at, "close_begin_at": io.close_begin_at,
+            "labels": rec.labels, "apps": rec.apps,
             "access": rec.access, "exceptions": rec.exceptions, "handler_done": res.get("handler_done"), "error": res.get("error"),
             "live_tasks": res.get("live_tasks"), "loop_errors": loop_errors, "turns": turns, "client_error": res.get("client_error"),
             "client_result": res.get("client_result")}
@@ -582,23 +596,40 @@ def run_trio(cfg: dict, alpn: Optional[str], client: Callable[[ClientIO], Awaita
 
         def __init__(self) -> None:
             self.closed = False
+            self._sender: Any = None          # the task inside send_all (trio.SocketStream's send conflict detector)
 
         async def send_all(self, data: bytes) -> None:
-            await trio.lowlevel.checkpoint()
-            if self.closed:
-                rec.label("srvWriteFail", len(data))
-                raise trio.ClosedResourceError()
-            if io._fail:
-                rec.label("srvWriteFail", len(data))
-                raise trio.BrokenResourceError()
-            io.out += data
-            io.writes.append([rec.t(), len(data)])
-            rec.label("srvWrite", len(data))
-            while io._paused and not io._fail:
-                await io._resume.wait()
-            if io._fail:
-                rec.label("srvWriteFail", 0)
-                raise trio.BrokenResourceError()
+            # like trio.SocketStream: a second task entering send_all / send_eof while one is inside send_all gets
+            # BusyResourceError at once; the detector is held over every checkpoint of the call, also while the peer does
+            # not read; closing the stream wakes the blocked sender with ClosedResourceError
+            if self._sender is not None:
+                rec.label("srvWriteBusy", len(data))
+                raise trio.BusyResourceError("another task is currently sending data on this SocketStream")
+            self._sender = trio.lowlevel.current_task()
+            try:
+                await trio.lowlevel.checkpoint()
+                if self.closed:
+                    rec.label("srvWriteFail", len(data))
+                    raise trio.ClosedResourceError()
+                if io._fail:
+                    rec.label("srvWriteFail", len(data))
+                    raise trio.BrokenResourceError()
+                io.out += data
+                io.writes.append([rec.t(), len(data)])
+                rec.label("srvWrite", len(data))
+                if io._paused and not io._fail and not self.closed:
+                    rec.label("srvWriteBlocked")
+                    while io._paused and not io._fail and not self.closed:
+                        await io._resume.wait()
+                    rec.label("srvWriteUnblocked")
+                if io._fail:
+                    rec.label("srvWriteFail", 0)
+                    raise trio.BrokenResourceError()
+                if self.closed:
+                    rec.label("srvWriteFail", 0)
+                    raise trio.ClosedResourceError()
+            finally:
+                self._sender = None
 
         async def receive_some(self, n: int) -> bytes:
             if self.closed:
@@ -614,6 +645,12 @@ def run_trio(cfg: dict, alpn: Optional[str], client: Callable[[ClientIO], Awaita
             return item
 
         async def send_eof(self) -> None:
+            if io.close_begin_at is None:
+                io.close_begin_at = rec.t()
+                rec.label("srvCloseBegin")
+            if self._sender is not None:
+                rec.label("srvEofBusy")
+                raise trio.BusyResourceError("another task is currently sending data on this SocketStream")
             await trio.lowlevel.checkpoint()
             if self.closed:
                 raise trio.ClosedResourceError()
@@ -622,12 +659,18 @@ def run_trio(cfg: dict, alpn: Optional[str], client: Callable[[ClientIO], Awaita
                 rec.label("srvWriteEof")
 
         async def aclose(self) -> None:
+            if io.close_begin_at is None:
+                io.close_begin_at = rec.t()
+                rec.label("srvCloseBegin")
             if not self.closed:
                 self.closed = True
                 io.closed_at = rec.t()
                 rec.label("srvClose")
                 # wake a reader blocked in receive_some, like closing a socket does
                 io.recv_ch.close()
+                # … and a sender blocked in send_all by a peer that does not read
+                io._resume.set()
+                io._resume = trio.Event()
             await trio.lowlevel.checkpoint()
 
     class SSLStream(Stream):
